@@ -131,7 +131,10 @@ def r17_2(ctx):
     use of the line, a decode has happened when the line can be bytes."""
     repo = ctx.repo
     n_sites = 0
-    for f in repo.all_funcs():
+    from ..core import tail_inlined as _ti
+
+    for f0 in repo.all_funcs():
+        f = _ti(repo, f0)
         # handles opened by the sniff idiom in this function, or `.file` of a GAF object, or self.file in GAF
         handles = set()
         for s in c03.opener_shape(f):
@@ -214,7 +217,9 @@ def r17_2(ctx):
             ctx.check(bad is None, "R17.2", f.where(asg or loop), f"a line read from `{sorted(handles)[0]}` reaches str-only operations only after a decode on paths where it can be bytes", key_of(f, f"decode:{var}:{bad[1] if bad else ''}"), paths=len(paths), **({"path": bad[0].show(), "why": bad[1]} if bad else {}))
     ctx.require_count("R17.2", n_sites, 5, "gaftools/", "line reads from possibly-compressed GAF handles")
     # the parser itself: decode under gz_flag before splitting
-    pf = repo.func("gaftools.gaf", "GAF.parse_gaf_line", "R17.2")
+    from ..core import tail_inlined
+
+    pf = tail_inlined(repo, repo.func("gaftools.gaf", "GAF.parse_gaf_line", "R17.2"))
     # path-based: on every path through the parser up to the tab split, the line is decoded exactly when gz_flag is set
     pp = enum_paths(pf.node.body, rule="R17.2", where=pf.where(), max_paths=200000)
     ok = True
